@@ -176,13 +176,54 @@ def t_skeletonize(M):
     return Select(Pw("astype", core), MaskE, Img)         # result[~mask] = image[~mask]
 
 
-HAND = {"regional_maximum": t_regional_maximum_default}
-# pre-repair shapes that the checker must REJECT (stated as Examples `accepts … = false`)
+# ---------------------------------------------------------------- loop summaries
+# The only construct of the 40 functions that the symbolic evaluator cannot evaluate: regional_maximum's double loop
+# over the offsets (i, j) of `structure`, which addresses the image and the zero-padded mask through slice bounds
+# computed with min/max (a clipped shift by the offset).  Its effect on `result` is written by hand and pinned to the
+# normalised hash of THAT LOOP only (everything else of regional_maximum is translated from the source):
+#   for every offset d of the structure other than the centre:
+#       result &= big_mask shifted by d            (big_mask = mask placed in a zero frame: False beyond the border)
+#       result[p] = False where image[p] < image[p + d]      (only for p, p + d inside the image)
+STRUCTURE_LOOP_PLACEMENT = ("structure_half_shape[0]:structure_half_shape[0]+image.shape[0],"
+                            "structure_half_shape[1]:structure_half_shape[1]+image.shape[1]")
+
+
+def loop_regional_maximum_structure(it, env):
+    s = it.m.struct_id
+    R0, big, X = env.get("result"), env.get("big_mask"), env.get("image")
+    if R0 is None or big is None or X is None:
+        raise G.Unsupported("structure loop: result / big_mask / image not bound")
+    if not (big[0] == "SetSlice" and big[1] == STRUCTURE_LOOP_PLACEMENT and G.is_const(big[2]) and G.is_masklike(big[3])):
+        raise G.Unsupported("structure loop: big_mask is not the mask centred in a constant frame")
+    M = big[3]
+    inner = Select(Not(LocS(s, "has_greater_structure_neighbour", X)), ErodeS(s, M), FalseC)
+    env["result"] = And(R0, inner)
+    for w in ("i", "j", "off_i", "off_j", "src_i_min", "src_i_max", "off_i_min", "off_i_max", "src_j_min", "src_j_max",
+              "off_j_min", "off_j_max", "min_mask"):
+        env[w] = Const("loop:" + w)
+
+
+def summaries(pins):
+    return {"regional_maximum": [{"name": "regional_maximum#structure_loop",
+                                  "pin": pins.get("regional_maximum#structure_loop"),
+                                  "apply": loop_regional_maximum_structure}]}
+
+
+def summary_loops(M):
+    """{pin name: loop statement} for mk_pins_c12.py: the outermost `for` over range(structure.shape[0])"""
+    import ast
+    fn = M.funcs["regional_maximum"]
+    loops = [n for n in ast.walk(fn) if isinstance(n, ast.For) and ast.unparse(n.iter).replace(" ", "") == "range(structure.shape[0])"]
+    if len(loops) != 1:
+        raise G.Unsupported("regional_maximum: structure loop not found")
+    return {"regional_maximum#structure_loop": (fn, loops[0])}
+
+
+HAND = {}
+# pre-repair shapes that the checker must REJECT (stated as Examples `accepts … = false`); illustrative, not tied to pins
 REJECTED = {"median_filter_unmasked_minmax": ("median_filter", t_median_filter_asis),
             "regional_maximum_unmasked_ties": ("regional_maximum", t_regional_maximum_unmasked_ties)}
-# further accepted configurations of listed functions (extra Examples)
-EXTRA = {"regional_maximum_ties_are_ok": ("regional_maximum", t_regional_maximum_ties)}
-# other functions whose code the hand terms rely on (pinned too)
-# terms with a symbolic structure: `forall s, accepts (prog_<name> s) = true`
-PARAM = {"regional_maximum_struct": ("regional_maximum", t_regional_maximum_param)}
-ALSO_PINNED = {}      # openlines' term takes opening/grey_erosion/grey_dilation from the translator, not from a pin
+EXTRA = {}
+# programs re-translated with a symbolic structure index: `forall s, accepts (prog_<name> s) = true`
+PARAM = {"regional_maximum_struct": "regional_maximum"}
+ALSO_PINNED = {}
